@@ -54,6 +54,8 @@ pub enum AssetE {
     Add(Box<AssetE>, Box<AssetE>),
     Sub(Box<AssetE>, Box<AssetE>),
     Paren(Box<AssetE>),
+    /// `!x`: every amount negated
+    Neg(Box<AssetE>),
 }
 
 #[derive(Debug, Clone, Serialize, Deserialize, PartialEq)]
@@ -336,6 +338,10 @@ impl P {
                 self.tok("(");
                 self.asset(a, prog);
                 self.tok(")");
+            }
+            AssetE::Neg(a) => {
+                self.tok("!");
+                self.asset(a, prog);
             }
         }
     }
@@ -862,7 +868,7 @@ fn ensure_n(prog: &mut GProg) -> IntE {
 }
 
 fn int_leaf(g: &mut Gen, point: &str, prog: &mut GProg) -> IntE {
-    let alts = ["q", "lit", "lit+q", "q-lit", "paren", "env", "local", "neg-neg", "slot_to_time-before-tip"];
+    let alts = ["q", "lit", "lit+q", "q-lit", "paren", "env", "local", "neg-neg", "slot_to_time-before-tip", "neg"];
     match alts[g.pick(point, &alts)] {
         "q" => IntE::Param("q".into()),
         "lit" => IntE::Lit(1500000),
@@ -878,6 +884,7 @@ fn int_leaf(g: &mut Gen, point: &str, prog: &mut GProg) -> IntE {
             IntE::Local("bonus".into())
         }
         "slot_to_time-before-tip" => IntE::SlotToTime(Box::new(IntE::Lit(4321))),
+        "neg" => IntE::Neg(Box::new(IntE::Param("q".into()))),
         _ => IntE::Neg(Box::new(IntE::Neg(Box::new(IntE::Param("q".into()))))),
     }
 }
@@ -1105,7 +1112,7 @@ fn gen_pay_amount(g: &mut Gen, point: &str, prog: &mut GProg) -> AssetE {
 
 /// change = everything consumed minus everything else produced, written in one of several shapes
 fn gen_change(g: &mut Gen, pay: &AssetE, inputs: &[String], minted: Option<&AssetE>, burned: Option<&AssetE>) -> AssetE {
-    let alts = ["a-pay-fees", "a-(pay+fees)", "a-fees-pay", "(a-pay)-fees"];
+    let alts = ["a-pay-fees", "a-(pay+fees)", "a-fees-pay", "(a-pay)-fees", "a-fees+!pay"];
     let shape = alts[g.pick("change.shape", &alts)];
     let mut total = AssetE::Input(inputs[0].clone());
     for i in &inputs[1..] {
@@ -1119,6 +1126,8 @@ fn gen_change(g: &mut Gen, pay: &AssetE, inputs: &[String], minted: Option<&Asse
         "a-pay-fees" => AssetE::Sub(Box::new(AssetE::Sub(Box::new(total), Box::new(paren_if_sum(pay)))), Box::new(AssetE::Fees)),
         "a-(pay+fees)" => AssetE::Sub(Box::new(total), Box::new(AssetE::Paren(Box::new(AssetE::Add(Box::new(pay), Box::new(AssetE::Fees)))))),
         "a-fees-pay" => AssetE::Sub(Box::new(AssetE::Sub(Box::new(total), Box::new(AssetE::Fees))), Box::new(paren_if_sum(pay))),
+        // the payment taken off by adding its negation
+        "a-fees+!pay" => AssetE::Add(Box::new(AssetE::Sub(Box::new(total), Box::new(AssetE::Fees))), Box::new(AssetE::Neg(Box::new(paren_if_sum(pay))))),
         _ => AssetE::Sub(Box::new(AssetE::Paren(Box::new(AssetE::Sub(Box::new(total), Box::new(paren_if_sum(pay)))))), Box::new(AssetE::Fees)),
     };
     if let Some(b) = burned {
@@ -1267,7 +1276,7 @@ pub fn generate(c: &mut Chooser) -> Scenario {
         match e {
             AssetE::Input(n) => n == name,
             AssetE::Add(a, b) | AssetE::Sub(a, b) => mentions_input(a, name) || mentions_input(b, name),
-            AssetE::Paren(a) => mentions_input(a, name),
+            AssetE::Paren(a) | AssetE::Neg(a) => mentions_input(a, name),
             _ => false,
         }
     }
@@ -1338,9 +1347,10 @@ pub fn generate(c: &mut Chooser) -> Scenario {
     }
 
     // metadata
-    match g.pick("metadata", &["none", "int", "string", "bytes-param", "two", "int-expr", "int-n"]) {
+    match g.pick("metadata", &["none", "int", "string", "bytes-param", "two", "int-expr", "int-n", "int-negated"]) {
         0 => {}
         1 => prog.metadata = vec![(IntE::Lit(674), MetaE::Int(IntE::Lit(42)))],
+        7 => prog.metadata = vec![(IntE::Lit(674), MetaE::Int(IntE::Neg(Box::new(IntE::Param("q".into())))))],
         2 => prog.metadata = vec![(IntE::Lit(674), MetaE::Str("hello metadata".into()))],
         3 => {
             prog.params.push(("memo".into(), ParamTy::Bytes));
